@@ -58,6 +58,7 @@ def run(rep, tier):
                     rep.tie_broken(f'centroid model ({kd}) and implementation disagree', {'op': ln[:300], 'model': o, 'impl': e})
     sources_stream(rep, r, 40 * scale)
     symmetry_stream(rep, r, 25 * scale)
+    xpeak_stream(rep, r, 16 * scale)
 
 
 def com_stream(rep, r, n, lines, exps, kinds):
@@ -245,6 +246,39 @@ def sources_stream(rep, r, n):
             rep.violation('centroid_sources-not-per-source:xpeak',
                           f'identical positions with xpeak/ypeak give different centroids {gx.tolist()} {gy.tolist()}', {})
             break
+
+
+def xpeak_stream(rep, r, n):
+    """(S) xpeak / ypeak given to centroid_sources are image coordinates: the result equals centroid_quadratic on the source's cut-out
+    with the peak re-based to that cut-out (positions off the image diagonal, non-square boxes, cut-outs clipped at one edge)"""
+    from photutils.centroids import centroid_sources, centroid_quadratic
+    from astropy.nddata import overlap_slices
+    yy, xx = np.mgrid[0:34, 0:46]
+    for k in range(n):
+        x0, y0 = r.uniform(3, 42), r.uniform(3, 30)
+        if k % 4 == 0:
+            x0 = r.uniform(0.5, 2.5)                                  # clipped at the left edge only
+        nbx, nby = x0 + r.choice([-4.1, 3.9]), y0 + r.choice([-1.6, 1.4, 2.2])
+        img = 60 * np.exp(-((xx - x0) ** 2 + (yy - y0) ** 2) / (2 * 1.5 ** 2)) + 90 * np.exp(-((xx - nbx) ** 2 + (yy - nby) ** 2) / (2 * 1.5 ** 2))
+        box = r.choice([(9, 11), 11, (11, 9)])
+        shape = (box, box) if np.isscalar(box) else box
+        xp, yp = int(round(x0)), int(round(y0))
+        with warnings.catch_warnings():
+            warnings.simplefilter('ignore')
+            try:
+                gx, gy = centroid_sources(img, [x0], [y0], box_size=box, centroid_func=centroid_quadratic, xpeak=xp, ypeak=yp, fit_boxsize=3)
+                sl, _ = overlap_slices(img.shape, shape, (y0, x0))
+                ex, ey = centroid_quadratic(img[sl], xpeak=xp - sl[1].start, ypeak=yp - sl[0].start, fit_boxsize=3)
+            except Exception as e:                                   # noqa: BLE001
+                rep.violation(f'centroid_sources-raises:{type(e).__name__}:xpeak', f'centroid_sources(xpeak, ypeak) raised {e!r}', {'x': x0, 'y': y0})
+                continue
+        ex, ey = ex + sl[1].start, ey + sl[0].start
+        rep.case(('xpeak2', x0, y0, repr(box)), True, kind='centroid_sources:xpeak:off-diagonal')
+        rep.probe_only += 1
+        if not (close(gx[0], ex, 1e-12) and close(gy[0], ey, 1e-12)):
+            rep.violation('centroid_sources-not-per-source:xpeak-frame', f'source at ({x0:.3f}, {y0:.3f}) with xpeak={xp}, ypeak={yp}: centroid_sources gives '
+                          f'({float(gx[0])}, {float(gy[0])}) but centroid_quadratic on the cut-out with the re-based peak gives ({float(ex)}, {float(ey)})',
+                          {'x': x0, 'y': y0, 'neighbour': [nbx, nby], 'box_size': box})
 
 
 def symmetry_stream(rep, r, n):
